@@ -68,6 +68,7 @@ Definition ident_of {Q} (f : from_clause Q) : string :=
   match f with
   | FTable p a => if String.eqb a "" then hd ""%string p else a
   | FTableFn _ p a => if String.eqb a "" then hd ""%string p else a
+  | FSel sl a => if String.eqb a "" then sel_ident sl else a
   | FDerived _ a => a
   | _ => ""%string
   end.
@@ -115,6 +116,7 @@ Section Ok.
     | FDual => true
     | FTable p a => name_ok a && negb (strict && nav_only p)
     | FTableFn _ _ a => name_ok a
+    | FSel _ _ => false              (* a selector as table name (pipes, top-level functions): outside this fragment *)
     | FDerived q a => name_ok a && same q
     | FJoin _ _ l r _ => from_ok l && from_ok r && name_ok (ident_of l) && name_ok (ident_of r)
     end.
@@ -123,7 +125,7 @@ Section Ok.
     (fix go (l : list (string * Q)) : bool :=
        match l with [] => true | (_, b) :: r => same b && go r end) (s_with s)
     && from_ok (s_from s)
-    && forallb name_ok (s_group s)
+    && forallb (fun c => name_ok (gk_name c)) (s_group s)
     && forallb (item_ok (strict && is_dual (s_from s))) (s_items s).
 End Ok.
 
